@@ -6,7 +6,7 @@ CFG = dict(
                "the binary search-path construction never slices out of bounds; config.set/configure/applyURL return an error exactly for "
                "texts that are not values of the field's kind and never panic; strings.Fields tokens are non-empty and parseCommandLine "
                "never panics on them; one pass and any sequence of passes of the interactive loop never panics for a profile with >= 1 "
-               "sample type, keeps the configuration's shape and still answers 'top 3'; every graph.TrimTree call is guarded by output formats for which the graph is built as a call tree (both format sets re-read from the source each run), so its panic is unreachable; the Active-filters legend cut never slices out of range and a legend line is verbatim up to 80 bytes; the -symbolize mode parser only ever hands demanglerModeToOptions a mode it knows (its panic is unreachable). Table facts (field kinds, distinct names, fields "
+               "sample type, keeps the configuration's shape and still answers 'top 3'; every graph.TrimTree call is guarded by output formats for which the graph is built as a call tree (both format sets re-read from the source each run), so its panic is unreachable; the node-limiting step never slices the node list out of range for any node count (its guard is re-read from the source each run); the Active-filters legend cut never slices out of range and a legend line is verbatim up to 80 bytes; the -symbolize mode parser only ever hands demanglerModeToOptions a mode it knows (its panic is unreachable). Table facts (field kinds, distinct names, fields "
                "addressed directly) are re-proved on the tables regenerated from /repo each run. The model is tied to the code by ~4,000 "
                "differential cases per quick run (identical event streams and configurations). Everything else -- report generation, "
                "templates, web handlers, symbolization, fetch -- is EXPLORED, not proved: grammar-driven sessions with real reports, "
@@ -21,7 +21,7 @@ CFG = dict(
          "sessions of 1-4 lines from the command grammar (commands, topN, '>' redirection, -ignore, assignments, shortcuts, comments, noise) "
          "+ a closing 'top 3', report requests recorded; (6) the same with real report generation over profiles with odd strings/ids/"
          "addresses/build ids/labels/units; (7) web: 1-5 requests over all handler paths + closing /top via driver.PProf -http and a plugin "
-         "HTTPServer; (8) command lines; (9) -symbolize mode texts from a grammar through Symbolizer.Symbolize (model-compared) and through driver.PProf with the real symbolizer; (10) every report under mean on profiles whose first value column holds zeros (session, CLI, web). (13) END-TO-END layer: sessions with every report written to a file (`cmd >file`), command lines with -output, web requests; the printed Active-filters legend of text/top/tree/peek is parsed back and compared with the legend the model derives from the configuration it predicts; deterministic shapes: values that are one/two/wrapping delimiter characters for options of every kind, filter values of 78..330 bytes built from 1..4-byte characters around the 80-byte cut. (12) locateBinaries candidates compared BY NAME with a lexical filepath model, for build ids / files made of atoms whose length or shape changes under normalisation (Unicode white space, case mappings that change the UTF-8 length, invalid UTF-8, NUL, path metacharacters): every atom, every pair, random 3-5 atom strings; the same atoms feed all string fields of explored profiles and option values. (11) option x output-format matrix: six shaped profiles (two-caller diamond, recursion/inlining/labels, wide, negative values, deep chain, unsymbolized) x settings derived from the config field table alone and combined with call_tree/trim/nodecount/nodefraction x EVERY report command, as interactive sessions (all commands in one session), command lines and web requests. All streams run in child processes under watchdogs (a call that does not return = observable hang). distinct = sha256 of the input term; non-trivial = at least one generated line/request/digit/"
+         "HTTPServer; (8) command lines; (9) -symbolize mode texts from a grammar through Symbolizer.Symbolize (model-compared) and through driver.PProf with the real symbolizer; (10) every report under mean on profiles whose first value column holds zeros (session, CLI, web). (14) negative / out-of-range numeric option values (every int and float field, sample_index numbers, integer command arguments, URL parameters) x every report format, and file names equal to the prefixes they are matched against, deterministically in every quick run. (13) END-TO-END layer: sessions with every report written to a file (`cmd >file`), command lines with -output, web requests; the printed Active-filters legend of text/top/tree/peek is parsed back and compared with the legend the model derives from the configuration it predicts; deterministic shapes: values that are one/two/wrapping delimiter characters for options of every kind, filter values of 78..330 bytes built from 1..4-byte characters around the 80-byte cut. (12) locateBinaries candidates compared BY NAME with a lexical filepath model, for build ids / files made of atoms whose length or shape changes under normalisation (Unicode white space, case mappings that change the UTF-8 length, invalid UTF-8, NUL, path metacharacters): every atom, every pair, random 3-5 atom strings; the same atoms feed all string fields of explored profiles and option values. (11) option x output-format matrix: six shaped profiles (two-caller diamond, recursion/inlining/labels, wide, negative values, deep chain, unsymbolized) x settings derived from the config field table alone and combined with call_tree/trim/nodecount/nodefraction x EVERY report command, as interactive sessions (all commands in one session), command lines and web requests. All streams run in child processes under watchdogs (a call that does not return = observable hang). distinct = sha256 of the input term; non-trivial = at least one generated line/request/digit/"
          "mapping/non-empty value/flag",
     spec_what="pprof panicked, hung, answered with an unexpected HTTP status, or left the interactive/web session unusable",
     trusted_base=["translator gen-c09calltree (go/parser scan of the TrimTree call guards and the graph.Options CallTree field; fails closed); assumption: a graph built with CallTree has at most one in-edge per node",
